@@ -8,10 +8,13 @@ from ..rules.skeleton import Interp, Ptr, U, Budget, Stop
 from ..util import is_assign
 
 EXPLANATION = (
-    "Static decision of structural clauses of C15: (1) every slot of carquet_simd_dispatch_t is assigned "
-    "its scalar implementation unconditionally before any override; overrides are installed in the order "
-    "SSE4.2 < AVX2 < AVX-512, each under its CPU capability test, each kernel defined in the translation "
-    "unit built for that ISA and named for the slot it fills; every carquet_dispatch_<slot> wrapper "
+    "Static decision of structural clauses of C15: (1) carquet_simd_dispatch_init is executed abstractly "
+    "for all 8 subsets of {SSE4.2, AVX2, AVX-512F} reported by the CPU probe (the probe hooked, the table "
+    "and its flag found by their types and writers): with no capability every slot holds the scalar "
+    "implementation scalar_<slot> of dispatch.c; a kernel of the SSE/AVX2/AVX-512 unit is installed only "
+    "under a capability set that contains its ISA and only in the slot it is named for; for every set each "
+    "slot ends with the kernel of the highest reported ISA that offers one; the flag is set in every "
+    "scenario and nothing follows it in the initialiser; every carquet_dispatch_<slot> wrapper "
     "initialises the table and calls its own slot with its own parameters; every hand-written extern "
     "prototype of a kernel equals the definition's type; (2) access extents: the cursor arithmetic of "
     "every x86 kernel (SSE/AVX2/AVX-512 units, 60 kernels) and of the scalar fallbacks is executed "
@@ -277,6 +280,110 @@ def _run_match_length(ctx, P, fn, key0):
     return runs
 
 
+def _dispatch_globals(P, rec):
+    """(table global, flag global) of dispatch.c, found by what they are: the file-scope object of the table's
+    record type, and the scalar file-scope variable the initialiser sets to a non-zero constant."""
+    tab = [g["name"] for _, g in P.globals if P.rel(g["file"]) == DP and g.get("def") and not g.get("const")
+           and g["t"].replace("struct ", "") in (rec["name"], rec["name"] + "_t", rec["name"].replace("_t", ""))]
+    init = P.fn("carquet_simd_dispatch_init", DP)
+    gl = set(g["name"] for _, g in P.globals if P.rel(g["file"]) == DP and g.get("def") and not g.get("const"))
+    flags = []
+    for f in [init] + [g for g in P.funcs_in(DP) if g.static and any(c.callee == g.name for c in init.calls())]:
+        for a in f.body.walk():
+            if is_assign(a) and a.op == "=" and a.c[0].strip().k == "DeclRefExpr" and a.c[0].strip().get("dk") == "global" \
+                    and a.c[0].strip().name in gl and a.c[1].cv not in (None, 0) and a.c[0].strip().name not in flags:
+                flags.append(a.c[0].strip().name)
+    if len(set(tab)) != 1 or len(flags) != 1:
+        raise AnalysisBroken("dispatch table / initialised flag of %s not identified (%s, %s)" % (DP, sorted(set(tab)), flags))
+    return tab[0], flags[0]
+
+
+def _dispatch_init_rules(ctx, P, rec, slots, TAB, FLAG):
+    """carquet_simd_dispatch_init executed abstractly for every subset of {SSE4.2, AVX2, AVX-512F} reported by
+    the CPU probe; the table it leaves behind is read slot by slot."""
+    from ..rules import sem
+    from ..rules.flow import after_reaches
+    init = P.fn("carquet_simd_dispatch_init", DP)
+    so_ = sem.field_offsets(P, rec["name"])
+    co = sem.field_offsets(P, "carquet_cpu_info")
+    RANK = {"sse": 1, "avx2": 2, "avx512": 3}
+    unit_isa = {v: k for k, v in UNITS.items()}
+    tables = {}
+    try:
+        for mask in range(8):
+            S = tuple(c for i, c in enumerate(ORDER) if mask >> i & 1)
+            heap0 = {("cpu", o): 0 for o in co.values()}
+            for c in S:
+                heap0[("cpu", co[c])] = 1
+            for off in so_.values():
+                heap0[("g:" + TAB, off)] = 0
+            heap0[("g:" + FLAG, 0)] = 0
+            ret, ev, heap = sem.run(P, init, [], heap0=heap0, hooks={"carquet_get_cpu_info": lambda ev, a, it: sem.Ptr("cpu", 0, 1)},
+                                    single=True, max_forks=8, budget=200000, globals_={TAB: rec["size"], FLAG: 4})
+            tables[S] = ({s_: heap.get(("g:" + TAB, so_[s_])) for s_ in slots}, heap.get(("g:" + FLAG, 0)))
+    except (sem.Inconclusive, KeyError) as ex:
+        ctx.inconclusive("R5.dispatch", "dispatch-init|%s" % DP, P.where(init.body), "abstract execution of carquet_simd_dispatch_init per capability set",
+                         "%s: %s" % (type(ex).__name__, ex))
+        return 0, set()
+
+    def isa_of(fr):
+        if not isinstance(fr, sem.FuncRef):
+            return None, None
+        cands = P.by_name.get(fr.name, [])
+        if not cands:
+            return fr.name, "?"
+        rf = P.rel(cands[0].file)
+        return fr.name, unit_isa.get(rf, "scalar" if rf == DP else "?")
+    # what each slot can get at best
+    avail = {s_: {} for s_ in slots}
+    for S, (tab, flag) in tables.items():
+        for s_ in slots:
+            nm, isa = isa_of(tab[s_])
+            if isa in RANK:
+                avail[s_][isa] = nm
+    nover = 0
+    for s_ in slots:
+        nm, isa = isa_of(tables[()][0][s_])
+        key = "slot-scalar|%s|%s" % (DP, s_)
+        what = "with no vector capability reported, slot %s holds the scalar implementation scalar_%s of dispatch.c" % (s_, s_)
+        if nm is None:
+            ctx.bad("R5.dispatch", key, P.where(init.body), what, "the slot is left empty")
+        elif isa == "scalar" and not nm.startswith("scalar_"):
+            ctx.inconclusive("R5.dispatch", key, P.where(init.body), what, "holds %s, a function of dispatch.c the rule cannot name" % nm)
+        else:
+            ctx.ob("R5.dispatch", key, P.where(init.body), what, isa == "scalar" and nm == "scalar_" + s_, "holds %s" % nm)
+        for isa2, k in sorted(avail[s_].items()):
+            nover += 1
+            key = "slot-override|%s|%s|%s" % (DP, s_, k)
+            stem = k.replace("carquet_%s_" % isa2, "").replace("byte_stream_split", "byte_split")
+            wrong = [S for S, (tab, flag) in tables.items() if isa_of(tab[s_])[0] == k and CAP_INV[isa2] not in S]
+            ctx.ob("R5.dispatch", key, P.where(init.body),
+                   "the %s kernel %s is installed in slot %s only when the CPU reports %s, and it is the kernel for that slot" % (isa2, k, s_, CAP_INV[isa2]),
+                   not wrong and stem == s_ and k.startswith("carquet_%s_" % isa2), "installed under %s" % (wrong[:2],) if wrong else "kernel stem %s" % stem)
+    # the best kernel wins, whatever the order of the blocks
+    badbest = None
+    for S, (tab, flag) in tables.items():
+        for s_ in slots:
+            nm, isa = isa_of(tab[s_])
+            best = max([i for i in avail[s_] if CAP_INV[i] in S], key=lambda i: RANK[i], default=None)
+            want = avail[s_][best] if best else tables[()][0][s_].name if isinstance(tables[()][0][s_], sem.FuncRef) else None
+            if nm != want and badbest is None:
+                badbest = "capabilities %s: slot %s holds %s, the best available kernel is %s" % (list(S), s_, nm, want)
+    ctx.ob("R5.dispatch", "override-order|%s" % DP, P.where(init.body),
+           "for every capability set each slot ends up with the kernel of the highest ISA the CPU reports (SSE4.2 < AVX2 < AVX-512)",
+           badbest is None, badbest or "")
+    # flag: set in every scenario, and nothing is stored after it in the initialiser
+    fl = [a for a in init.body.walk() if is_assign(a) and a.c[0].strip().k == "DeclRefExpr" and a.c[0].strip().name == FLAG and a.c[1].cv not in (None, 0)]
+    late = any(after_reaches(init.cfg, a, lambda e: (is_assign(e) or e.k == "CallExpr") and e.i != a.i) is not None for a in fl) if init.cfg is not None else True
+    ctx.ob("R5.dispatch", "init-flag-last|%s" % DP, P.where(init.body),
+           "%s is set in every scenario, and no store or call follows it in the initialiser" % FLAG,
+           bool(fl) and all(flag not in (0, None) for tab, flag in tables.values()) and not late)
+    return nover, set(v.name for v in tables[()][0].values() if isinstance(v, sem.FuncRef))
+
+
+CAP_INV = {v: k for k, v in CAP.items()}
+
+
 def _esz(t):
     from ..rules.skeleton import pointee_size
     return pointee_size(t) or 1
@@ -296,7 +403,6 @@ def run(ctx):
     ctx.clause("C15.5 a single-bit mask test is not decided by a signed vector compare that the sign-bit lane of the mask makes negative")
     nsb = lanes.check_signed_bit_test(ctx, P.funcs_under("src/simd/"))
     ctx.count("signed_bit_tests", nsb)
-    init = P.inlined(P.fn("carquet_simd_dispatch_init", DP), 2)    # helpers that install a group of slots are expanded
     rec = P.record("carquet_simd_dispatch_t") if "carquet_simd_dispatch_t" in P.records else None
     if rec is None:
         for name, r in P.records.items():
@@ -306,101 +412,19 @@ def run(ctx):
         raise AnalysisBroken("dispatch table record not found")
     slots = [f["n"] for f in rec["fields"]]
     ctx.floor("C15 dispatch slots", len(slots), 19)
-    # assignments g_dispatch.<slot> = fn with their guarding capability
-    assigns = []
-    for a in init.body.walk():
-        if is_assign(a) and a.op == "=":
-            l = a.c[0].strip()
-            if l.k == "MemberExpr" and l.c[0].strip().k == "DeclRefExpr" and l.c[0].strip().name == "g_dispatch":
-                r = a.c[1].strip_casts()
-                if r.k == "UnaryOperator" and r.op == "&":
-                    r = r.c[0].strip_casts()
-                cap = None
-                for anc in a.ancestors():
-                    if anc.k == "IfStmt":
-                        cnd = [x for x in anc.c if x is not None][0]
-                        mem = [x.name for x in cnd.walk() if x.k == "MemberExpr"]
-                        if mem:
-                            cap = (mem, anc)
-                assigns.append((l.name, r.name if r.k == "DeclRefExpr" else None, cap, a))
-    # `g_dispatch = <static const table>`: every slot named by the table's initialiser is assigned at once
-    globs = {g["name"]: g for _, g in P.globals if g.get("init") is not None}
-    for a in init.body.walk():
-        if is_assign(a) and a.op == "=":
-            l = a.c[0].strip()
-            r = a.c[1].strip_casts()
-            if l.k == "DeclRefExpr" and l.name == "g_dispatch" and r.k == "DeclRefExpr" and r.name in globs:
-                tab = globs[r.name]["init"]
-                if tab.k == "InitListExpr" and len(tab.c) == len(slots):
-                    for slot, cell in zip(slots, tab.c):
-                        x = cell.strip_casts() if cell is not None else None
-                        if x is not None and x.k == "UnaryOperator" and x.op == "&":
-                            x = x.c[0].strip_casts()
-                        assigns.append((slot, x.name if x is not None and x.k == "DeclRefExpr" else None, None, a))
-    scalar = {s: None for s in slots}
-    first_override = None
-    for slot, fname, cap, node in assigns:
-        if cap is None:
-            scalar[slot] = (fname, node)
-        elif first_override is None:
-            first_override = node
-    for s in slots:
-        key = "slot-scalar|%s|%s" % (DP, s)
-        if scalar[s] is None:
-            ctx.bad("R5.dispatch", key, P.where(init.body), "slot %s has an unconditional scalar implementation" % s)
-            continue
-        fname, node = scalar[s]
-        order = {n_.i: k_ for k_, n_ in enumerate(init.body.walk())}
-        uncond = not any(a_.k in ("IfStmt", "ForStmt", "WhileStmt", "DoStmt", "SwitchStmt", "ConditionalOperator")
-                         for a_ in node.ancestors())
-        ok = fname == "scalar_" + s and uncond and (first_override is None or order[node.i] < order[first_override.i])
-        ctx.ob("R5.dispatch", key, P.where(node),
-               "slot %s is set to scalar_%s before any ISA override" % (s, s), ok, "assigned %s" % fname)
-    # overrides
-    seen_caps = []
-    nover = 0
-    for slot, fname, cap, node in assigns:
-        if cap is None:
-            continue
-        nover += 1
-        mem, ifn = cap
-        key = "slot-override|%s|%s|%s" % (DP, slot, fname)
-        caps = [m for m in mem if m in CAP]
-        if len(caps) != 1 or len(mem) != 1:
-            ctx.bad("R5.dispatch", key, P.where(node), "override of %s is guarded by exactly one capability flag" % slot,
-                    "condition mentions %s" % mem)
-            continue
-        isa = CAP[caps[0]]
-        if caps[0] not in seen_caps:
-            seen_caps.append(caps[0])
-        cands = P.by_name.get(fname or "", [])
-        unit_ok = bool(cands) and P.rel(cands[0].file) == UNITS[isa]
-        stem = (fname or "").replace("carquet_%s_" % isa, "").replace("byte_stream_split", "byte_split")
-        ctx.ob("R5.dispatch", key, P.where(node),
-               "under %s slot %s receives the %s kernel for that slot, defined in %s" % (caps[0], slot, isa, UNITS[isa]),
-               unit_ok and stem == slot and fname.startswith("carquet_%s_" % isa),
-               "kernel %s defined in %s" % (fname, P.rel(cands[0].file) if cands else "?"))
+    TAB, FLAG = _dispatch_globals(P, rec)
+    nover, installed = _dispatch_init_rules(ctx, P, rec, slots, TAB, FLAG)
     ctx.floor("C15 ISA overrides", nover, 35)
-    ctx.ob("R5.dispatch", "override-order|%s" % DP, P.where(init.body),
-           "override blocks are applied in the order SSE4.2, AVX2, AVX-512 (best ISA last)",
-           seen_caps == [c for c in ORDER if c in seen_caps] and len(seen_caps) == 3, str(seen_caps))
-    # capability guard vs unit build flags (observation table frozen: regressions only)
     for capn, isa in CAP.items():
         flags = [fl for fl in P.unit_flags.get(P.repo + "/" + UNITS[isa], []) if fl.startswith("-m")]
         ctx.count("unit_flags_%s" % isa, len(flags))
-    # flag published last
-    fl = [a for a in init.body.walk() if is_assign(a) and a.c[0].strip().k == "DeclRefExpr"
-          and a.c[0].strip().name == "g_dispatch_initialized"]
-    ctx.ob("R5.dispatch", "init-flag-last|%s" % DP, P.where(init.body),
-           "g_dispatch_initialized is set after the last slot assignment",
-           len(fl) == 1 and all(_order(init)[n.i] < _order(init)[fl[0].i] for _, _, cap, n in assigns))
 
     # wrappers: each public entry point is executed abstractly with the table seeded (every slot holds a
     # marker kernel) and the initialiser hooked: with the table not yet built the initialiser runs first,
     # then exactly the slot of that name is called with the wrapper's own arguments in order
     from ..rules import sem
     nw = 0
-    rname = "carquet_simd_dispatch_t" if "carquet_simd_dispatch_t" in P.records else "carquet_simd_dispatch"
+    rname = rec["name"]
     so_ = sem.field_offsets(P, rname)
     for s in slots:
         w = P.fn_opt("carquet_dispatch_" + s, DP)
@@ -410,19 +434,19 @@ def run(ctx):
         bad = None
         try:
             for ready in (0, 1):
-                heap0 = {("g:g_dispatch", off): sem.FuncRef("kernel:" + nm) for nm, off in so_.items()}
-                heap0[("g:g_dispatch_initialized", 0)] = ready
+                heap0 = {("g:" + TAB, off): sem.FuncRef("kernel:" + nm) for nm, off in so_.items()}
+                heap0[("g:" + FLAG, 0)] = ready
                 args = [sem.Ptr("a%d" % i, 0, 1) if "*" in p["t"] else 1000 + i for i, p in enumerate(w.params)]
 
                 def init_hook(ev, a, it):
                     ev.append("init")
-                    it.heap[("g:g_dispatch_initialized", 0)] = 1
+                    it.heap[("g:" + FLAG, 0)] = 1
                 hooks = {"carquet_simd_dispatch_init": init_hook}
                 for nm in so_:
                     hooks["kernel:" + nm] = (lambda ev, a, it, nm=nm: ev.append(("kernel", nm) + tuple(
                         (x.base, x.off) if isinstance(x, sem.Ptr) else x for x in a)) or 0)
                 ret, ev, heap = sem.run(P, w, args, heap0=heap0, hooks=hooks, single=True, max_forks=16,
-                                        globals_={"g_dispatch": P.record(rname)["size"], "g_dispatch_initialized": 4})
+                                        globals_={TAB: P.record(rname)["size"], FLAG: 4})
                 want = ("kernel", s) + tuple((x.base, x.off) if isinstance(x, sem.Ptr) else x for x in args)
                 ks = [e for e in ev if e != "init"]
                 if ks != [want] or (not ready and ev[:1] != ["init"]):
@@ -465,7 +489,6 @@ def run(ctx):
             if fn.static or not fn.name.startswith("carquet_%s_" % isa):
                 continue
             jobs.append((P, fn, fn.name.replace("carquet_%s_" % isa, ""), isa, maxn))
-    installed = set(fname for _, fname, cap, _ in assigns if cap is None and fname)
     for fn in sorted(P.funcs_in(DP), key=lambda f: f.line):
         if fn.name.startswith("scalar_") and fn.name in installed:     # helpers of the fallbacks are reached through them
             jobs.append((P, fn, fn.name.replace("scalar_", "").replace("byte_split", "byte_stream_split"), "scalar", ctx.depth(40, 130)))
